@@ -220,7 +220,7 @@ PROPS = {
         ],
         "units": [
             regress("C11"),
-            {"run": "^TestC11$", "quick": 2200, "thorough": 3000},
+            {"run": "^TestC11$", "quick": 1800, "thorough": 3000},
         ],
     },
     "C20": {
